@@ -35,6 +35,12 @@ Section Comparator.
       vmatch_f n t l la s = O_match -> vmatch_f n t l' la s = O_false.
   Proof. exact drift_detected_f. Qed.
 
+  (* the fuel [vmatch] runs with (the target's depth + 1) is enough: with any
+     larger fuel the recursion gives the same verdict *)
+  Theorem C05_fuel_irrelevant : forall n m t a la s,
+    (jdepth t < n)%nat -> (jdepth t < m)%nat -> vmatch_f n t a la s = vmatch_f m t a la s.
+  Proof. exact vmatch_fuel_irrelevant. Qed.
+
   (* the quantifier: deviations live at paths that never go through a
      directive key, an ownerReferences key or a key compared against
      last-applied ("which the comparison deliberately ignores") *)
@@ -224,6 +230,7 @@ Qed.
 
 Print Assumptions C05_drift_detected.
 Print Assumptions C05_drift_detected_fuel.
+Print Assumptions C05_fuel_irrelevant.
 Print Assumptions C05_deviation_at_specified_path.
 Print Assumptions C05_set_member_retype_refuted.
 Print Assumptions C05_as_map_retype_refuted.
